@@ -19,7 +19,8 @@ def main():
     gen = os.path.join(ROOT, "coq", "gen")
     ch = [emit.write_if_changed(os.path.join(gen, "Compute.v"), comp),
           emit.write_if_changed(os.path.join(gen, "Tables.v"), tabs),
-          emit.write_if_changed(os.path.join(gen, "Unfold.v"), emit.emit_unfold(ir))]
+          emit.write_if_changed(os.path.join(gen, "Unfold.v"), emit.emit_unfold(ir)),
+          emit.write_if_changed(os.path.join(gen, "Totality.v"), emit.emit_totality(ir, meta))]
     os.makedirs(os.path.join(ROOT, "build"), exist_ok=True)
     # T3 in its own process (it re-wires the object backend)
     import subprocess
